@@ -32,16 +32,39 @@ Proof.
   - destruct (p a); [reflexivity | exact IH].
 Qed.
 
-(* one (non row-switch) event on the live tables *)
+(* the object of the event is up to date: on the columns its history does not report as changed it
+   holds what the stored row holds (false after a row switch, see F-C01-row-switch) *)
+Definition fresh (g : cfg) (live : list lrow) (e : ent_ev) : Prop :=
+  e_kind e = OP_UPD ->
+  forall old, find_live live (e_cls e) (ev_key g e) = Some old ->
+    merge_vals (e_colchg e) (e_vals e) (l_vals old) = e_vals e.
+
+(* one event of an up-to-date object on the live tables *)
 Lemma apply_live_at g live e c k :
-  (e_kind e =? OP_UPD) && e_isnew e = false ->
+  fresh g live e ->
   find_live (apply_live g live e) c k =
   if (e_cls e =? c)%nat && pk_eqb (ev_key g e) k
   then (if e_kind e =? OP_DEL then None else Some (mkl (e_cls e) (ev_key g e) (e_vals e)))
   else find_live live c k.
 Proof.
-  intro Hsw. unfold apply_live, find_live, ev_key. set (cc := cls_of g (e_cls e)).
-  set (ke := key_of cc (e_vals e)). rewrite Hsw.
+  intro Hfr. unfold apply_live, find_live, ev_key. set (cc := cls_of g (e_cls e)).
+  set (ke := key_of cc (e_vals e)).
+  assert (Hnew : (if e_kind e =? OP_DEL then filter (fun r => negb (same_l (e_cls e) ke r)) live
+                  else if e_kind e =? OP_UPD
+                       then match find (same_l (e_cls e) ke) live with
+                            | Some old => filter (fun r => negb (same_l (e_cls e) ke r)) live ++
+                                          [mkl (e_cls e) ke (merge_vals (e_colchg e) (e_vals e) (l_vals old))]
+                            | None => filter (fun r => negb (same_l (e_cls e) ke r)) live ++ [mkl (e_cls e) ke (e_vals e)]
+                            end
+                       else filter (fun r => negb (same_l (e_cls e) ke r)) live ++ [mkl (e_cls e) ke (e_vals e)]) =
+                 (if e_kind e =? OP_DEL then filter (fun r => negb (same_l (e_cls e) ke r)) live
+                  else filter (fun r => negb (same_l (e_cls e) ke r)) live ++ [mkl (e_cls e) ke (e_vals e)])).
+  { destruct (e_kind e =? OP_DEL); [reflexivity|].
+    destruct (e_kind e =? OP_UPD) eqn:EU; [|reflexivity].
+    destruct (find (same_l (e_cls e) ke) live) as [old|] eqn:F; [|reflexivity].
+    apply Z.eqb_eq in EU. unfold fresh, find_live, ev_key in Hfr. fold cc ke in Hfr.
+    rewrite (Hfr EU old F). reflexivity. }
+  rewrite Hnew. clear Hnew.
   destruct ((e_cls e =? c)%nat && pk_eqb ke k) eqn:E.
   - apply andb_true_iff in E as [E1 E2]. apply Nat.eqb_eq in E1. apply pk_eqb_eq in E2. subst c k.
     assert (Hnone : find (same_l (e_cls e) ke)
@@ -81,34 +104,42 @@ Proof.
   - intro H. inversion H. auto.
 Qed.
 
-(* all events of a flush, one per entity *)
+(* all events of a flush, one per entity; each object is up to date when its event is applied *)
+Fixpoint all_fresh (g : cfg) (live : list lrow) (ents : list ent_ev) : Prop :=
+  match ents with
+  | [] => True
+  | e :: ents' => fresh g live e /\ all_fresh g (apply_live g live e) ents'
+  end.
+
 Lemma fold_live_none g c k : forall ents live,
-  (forall e, In e ents -> (e_kind e =? OP_UPD) && e_isnew e = false) ->
+  all_fresh g live ents ->
   (forall e, In e ents -> is_ev g c k e = false) ->
   find_live (fold_left (apply_live g) ents live) c k = find_live live c k.
 Proof.
-  induction ents as [|e ents IH]; intros live Hsw Hno; simpl; [reflexivity|].
-  rewrite IH; [|intros; apply Hsw; right; assumption | intros; apply Hno; right; assumption].
-  rewrite apply_live_at by (apply Hsw; left; reflexivity).
+  induction ents as [|e ents IH]; intros live Hfr Hno; simpl; [reflexivity|].
+  destruct Hfr as [Hf Hrest].
+  rewrite IH; [|exact Hrest | intros; apply Hno; right; assumption].
+  rewrite apply_live_at by exact Hf.
   fold (is_ev g c k e). rewrite (Hno e (or_introl eq_refl)). reflexivity.
 Qed.
 
 Lemma fold_live_one g c k : forall ents live e,
-  (forall e, In e ents -> (e_kind e =? OP_UPD) && e_isnew e = false) ->
+  all_fresh g live ents ->
   NoDup (map (ev_id g) ents) -> In e ents -> is_ev g c k e = true ->
   find_live (fold_left (apply_live g) ents live) c k =
   if e_kind e =? OP_DEL then None else Some (mkl (e_cls e) (ev_key g e) (e_vals e)).
 Proof.
-  induction ents as [|a ents IH]; intros live e Hsw ND Hin He; [contradiction|]. simpl.
+  induction ents as [|a ents IH]; intros live e Hfr ND Hin He; [contradiction|]. simpl.
+  destruct Hfr as [Hf Hrest].
   inversion ND as [|? ? Hnotin ND']; subst.
   destruct Hin as [<-|Hin].
   - rewrite fold_live_none.
-    + rewrite apply_live_at by (apply Hsw; left; reflexivity). fold (is_ev g c k a). rewrite He. reflexivity.
-    + intros; apply Hsw; right; assumption.
+    + rewrite apply_live_at by exact Hf. fold (is_ev g c k a). rewrite He. reflexivity.
+    + exact Hrest.
     + intros e' He'. destruct (is_ev g c k e') eqn:E; [|reflexivity]. exfalso.
       apply Hnotin. apply is_ev_spec in E. apply is_ev_spec in He. rewrite He, <- E.
       apply in_map. exact He'.
-  - apply IH; auto. intros; apply Hsw; right; assumption.
+  - apply IH; auto.
 Qed.
 
 (* the operations map after the trackers *)
